@@ -58,13 +58,25 @@ def override_value(key, default, rng):
     return default
 
 
-def construct(D, user, rng_seed=0, geom="linear", row=False):
+def construct(D, user, rng_seed=0, geom="linear", row=False, x0_kind="inside"):
     from pybads import BADS
     x0 = np.linspace(0.1, 0.5, D)
     lb, ub, plb, pub = np.full(D, -5.0), np.full(D, 5.0), np.full(D, -2.0), np.full(D, 2.0)
     if geom == "log":          # every second coordinate positive over more than a decade: log-transformed internally
         for i in range(0, D, 2):
             lb[i], ub[i], plb[i], pub[i] = 1e-3, 10.0, 0.05, 5.0
+    # start points that the constructor has to move (on a hard bound / within the 0.1% margin of it / outside the plausible box):
+    # the moved copy is BADS's own business, the caller's array must stay as it was
+    if x0_kind == "on_bound":
+        x0[0] = lb[0]; x0[-1] = ub[-1]
+    elif x0_kind == "near_bound":
+        x0[0] = lb[0] + 1e-6 * (ub[0] - lb[0]); x0[-1] = ub[-1] - 1e-5 * (ub[-1] - lb[-1])
+    elif x0_kind == "outside_plausible":
+        x0[-1] = 0.5 * (pub[-1] + ub[-1])
+    elif x0_kind == "matrix_row":
+        M = np.vstack([x0, x0 + 0.1, x0])
+        M[1, 0] = lb[0]
+        x0 = M[1]
     if row:
         x0, lb, ub, plb, pub = (np.atleast_2d(a) for a in (x0, lb, ub, plb, pub))
     keep = {"x0": x0.copy(), "lb": lb.copy(), "ub": ub.copy(), "plb": plb.copy(), "pub": pub.copy()}
@@ -106,7 +118,8 @@ def run(ctx):
             user["uncertainty_handling"] = True
         case = {"kind": "options", "D": D, "user_keys": sorted(user)}
         try:
-            b, mutated, dict_changed = construct(D, user, geom=rng.choice(["linear", "log", "log"]), row=rng.random() < 0.5)
+            b, mutated, dict_changed = construct(D, user, geom=rng.choice(["linear", "log", "log"]), row=rng.random() < 0.5,
+                                                x0_kind=rng.choice(["inside", "on_bound", "near_bound", "outside_plausible", "matrix_row"]))
         except Exception as ex:
             rep.disagree("Opt.load ~ BADS.__init__", f"construction with overrides {sorted(user)} raised {type(ex).__name__}: {str(ex)[:80]}", case)
             continue
